@@ -173,6 +173,7 @@ type Exec struct {
 	curDeferFrame []*frame
 	locks         map[*Val]bool
 	syncMaps      map[*Val]*MapObj
+	pools         map[*Val][]Val
 	initFailure   string
 	frozenCells   map[*Val]bool
 	curH          int
@@ -216,6 +217,9 @@ func (ex *Exec) resetPath(prefix []uint16) {
 	ex.depth = 0
 	ex.lazyDone = nil
 	ex.lazyRunning = false
+	ex.locks = nil
+	ex.syncMaps = nil
+	ex.pools = nil
 }
 
 // initGlobals zeroes every global of the interpretable packages and runs their
